@@ -18,6 +18,11 @@ CONSTANTS
   EmptyDiff = {}
   RootCheckedOnEmptyDiff = TRUE
   VerdictPerAnswer = TRUE
+  ClassA = {}
+  ClassB = {}
+  SierraSet = {}
+  RememberKnown = FALSE
+  Windows = TRUE
 INIT TraceInit
 NEXT TraceNext
 CONSTRAINT TraceConstraint
